@@ -9,6 +9,7 @@ from areas import AREAS
 ENGINE_PATHS = {"peers": "specs/peers (BadNode.tla, MCBadNode.tla, BadNodeTrace.tla) + lib/areas/replication.py peers_stage + harness/drv_peers",
                 "challenge": "specs/challenge (Challenge.tla, MCChallenge.tla, ChallengeTrace.tla) + lib/areas/challenge_stage.py + harness/drv_net/src/bin/drv_challenge.rs",
                 "putrecord": "specs/putrecord (PutRecord.tla, MCPutRecord.tla, PutRecordTrace.tla) + lib/areas/putrecord_stage.py + harness/drv_net/src/bin/drv_putrecord.rs",
+                "quoting": "specs/quoting (Quoting.tla, MCQuoting.tla, QuotingTrace.tla) + lib/areas/quoting_stage.py + harness/drv_net/src/bin/drv_quoting.rs",
                 "network": "specs/network (Network.tla = node handlers over INSTANCE ReplFetcher + Replication lattice; MCNetwork.tla message bag, phases, liveness; NetworkTrace.tla) + lib/areas/replication.py network_stage + harness/drv_net/src/bin/drv_netw.rs"}
 NOT_YET = "check not built yet (construction order in DESIGN.md Appendix D); nothing is claimed for this property at this commit"
 
